@@ -1622,7 +1622,7 @@ func (in *pkgInliner) inlineCall(call *ast.CallExpr, fo *types.Func, lhs []ast.E
 		}
 		// a function-typed parameter bound to a function constant (f, pkg.F, (*T).M) and never reassigned:
 		// substitute it, so that the calls through it are static calls again
-		if _, isFn := p.typ.(*ast.FuncType); isFn && in.isFuncConst(arg) && !assignedIn(body, p.name) {
+		if in.isFuncTyped(p.typ) && in.isFuncConst(arg) && !assignedIn(body, p.name) {
 			body = astutil.Apply(body, nil, func(c *astutil.Cursor) bool {
 				if id, ok := c.Node().(*ast.Ident); ok && id.Name == p.name {
 					if _, isField := c.Parent().(*ast.SelectorExpr); isField && c.Name() == "Sel" {
@@ -2539,4 +2539,18 @@ func assignedIn(n ast.Node, name string) bool {
 		return true
 	})
 	return found
+}
+
+// isFuncTyped: the type expression denotes a function type (literally or through a named type).
+func (in *pkgInliner) isFuncTyped(t ast.Expr) bool {
+	if _, ok := t.(*ast.FuncType); ok {
+		return true
+	}
+	if oe, ok := in.o(t).(ast.Expr); ok {
+		if tt := in.info.TypeOf(oe); tt != nil {
+			_, isSig := tt.Underlying().(*types.Signature)
+			return isSig
+		}
+	}
+	return false
 }
